@@ -57,6 +57,23 @@ def step (op : List String) (impl : String) : String :=
         | [_, back, w] => if back = toString n && w = want then "ok" else "fail:status-byte-roundtrip-or-client-mapping"
         | _ => "fail:status-conversion-crashed"
       model ++ "\t" ++ verdict
+  | ["st.val", fam, b] =>
+    match b.toNat? with
+    | none => "bad-op\tna"
+    | some n =>
+      let v : Option Status.Status :=
+        if fam = "ctap2" then Status.tryFamily 0 n else if fam = "ext" then Status.tryFamily 1 n
+        else if fam = "vendor" then Status.tryFamily 2 n else if fam = "other" then Status.tryFamily 3 n
+        else if fam = "u2f" then Status.tryFamily 11 n else none
+      let model := match v with
+        | none => "no-such-value"
+        | some v => s!"{showStatus v} {Status.toByte v} {showStatus (Status.ofByte (Status.toByte v))}"
+      -- Spec: converting a status value to its byte and back gives the same value (the documented clash of
+      -- the two success codes 0x00 aside): each byte stands for exactly one status value
+      let verdict := match splitSp impl with
+        | [dbg, _, back] => if dbg = back || (fam = "u2f" && n = 0) then "ok" else "fail:two-status-values-share-a-byte"
+        | _ => "fail:status-conversion-crashed"
+      model ++ "\t" ++ verdict
   | ["ctap.opts", h] =>
     match bytesOfHex h with
     | none => "bad-op\tna"
@@ -98,7 +115,18 @@ def step (op : List String) (impl : String) : String :=
         else if kind.startsWith "remove:" then
           let k := ((kind.drop 7).toString.toNat?).getD 999
           let required := (spec.filter (·.2.2)).map (·.2.1)
-          if required.contains k then (if impl = "err" then "ok" else "fail:missing-required-member-accepted") else "na"
+          if required.contains k then (if impl = "err" then "ok" else "fail:missing-required-member-accepted")
+          else
+            -- an absent optional member takes its default: the rest is unchanged; the always-emitted
+            -- `options` of the two requests comes back as the default map (rk=false, up=true, uv=false)
+            match decode1 ob with
+            | some (.map es, []) =>
+              let isOptions := (name = "makeCredentialRequest" && k = 7) || (name = "getAssertionRequest" && k = 5)
+              let es' := es.filterMap (fun e => match e.1 with
+                | .uint n => if n = k then (if isOptions then some (e.1, defaultOptionsItem) else none) else some e
+                | _ => some e)
+              if impl = "ok " ++ hexOfBytes (encode (.map es')) then "ok" else "fail:absent-optional-member-not-defaulted"
+            | _ => "na"
         else "na"
       model ++ "\t" ++ verdict
     | _, _, _ => "bad-op\tna"
